@@ -14,7 +14,7 @@ package dnsmsg
 //@ spec func distinctSecs(m *Msg) bool = (m.Questions == nil || m.Answers == nil || true)
 //@        && (m.Answers == nil || (!sameObj(m.Answers, m.Authorities) && !sameObj(m.Answers, m.Additionals)))
 //@        && (m.Authorities == nil || !sameObj(m.Authorities, m.Additionals))
-//@ spec func wfMsg(m *Msg) bool = forall(k, 0, len(m.Questions), m.Questions[k] != nil) && wfRecs(m.Answers) && wfRecs(m.Authorities) && wfRecs(m.Additionals)
+//@ spec func wfMsg(m *Msg) bool = forall(k, 0, len(m.Questions), m.Questions[k] != nil) && wfRecs(m.Answers) && wfRecs(m.Authorities) && wfRecs(m.Additionals) && distinctSecs(m)
 
 // ---- utils.go ---------------------------------------------------------------------
 
@@ -183,7 +183,7 @@ package dnsmsg
 //@   requires q != nil && 0 <= off && off <= len(msg)
 //@   modifies msg[off:len(msg)], obj(compression)
 //@   ensures off <= noff && noff <= len(msg)
-//@   ensures err == nil ==> off < noff
+//@   ensures err == nil ==> off < noff && noff - off <= len(q.Name) + 5 && len(q.Name) <= 254
 //@   ensures [C02:uncompressed] err == nil && compression == nil && !sameObj(q.Name, msg) ==>
 //@             noff == off+len(q.Name)+5 && len(q.Name) <= 254
 //@             && bytesEq(msg, off, q.Name, 0, len(q.Name)) && msg[off+len(q.Name)] == 0
@@ -617,6 +617,7 @@ package dnsmsg
 //@   ensures wfRecs(m.Additionals)
 //@   ensures [C12:none] r == nil ==> noOPT(m.Additionals) && m.Additionals == old(m.Additionals)
 //@   ensures [C12:popped] r != nil ==> dynNonNil(r) && isOPT(r) && len(m.Additionals) == old(len(m.Additionals)) - 1
+//@   ensures r != nil ==> sameSlice(m.Additionals, old(m.Additionals), 0, len(m.Additionals)) && cap(m.Additionals) == old(cap(m.Additionals))
 //@   ensures [C12:popped-member] r != nil ==> exists(k, 0, old(len(m.Additionals)), r == old(m.Additionals[k]))
 //@   ensures [C12:single] r != nil && old(atMostOneOPT(m.Additionals)) ==> noOPT(m.Additionals)
 //@   loop 1:
@@ -626,7 +627,77 @@ package dnsmsg
 
 //@ func RemoveEDNS0(m *Msg)
 //@   props C01 C12
+//@   inline
 //@   requires m != nil && wfRecs(m.Additionals)
 //@   modifies *
 //@   ensures wfRecs(m.Additionals)
 //@   ensures [C12:single] old(atMostOneOPT(m.Additionals)) ==> noOPT(m.Additionals)
+
+// ---- msg.go: Len and Pack ---------------------------------------------------------------------------
+
+//@ spec func smallMsg(m *Msg) bool = len(m.Questions) <= 65536 && len(m.Answers) <= 65536 && len(m.Authorities) <= 65536 && len(m.Additionals) <= 65536
+//@ spec func secDone(m *Msg, o int) int = (o >= 0 ? len(m.Answers) : 0) + (o >= 1 ? len(m.Authorities) : 0) + (o >= 2 ? len(m.Additionals) : 0)
+
+//@ func (m *Msg) Len() (l int)
+//@   props C01 C09
+//@   requires m == nil || (wfMsg(m) && smallMsg(m))
+//@   modifies nothing
+//@   ensures m == nil ==> l == 0
+//@   ensures m != nil ==> 12 <= l && l <= 12 + 260*len(m.Questions) + 66000*(len(m.Answers)+len(m.Authorities)+len(m.Additionals))
+//@   loop 1:
+//@     invariant 12 <= l && l <= 12 + 260*(rangeindex+1)
+//@   loop 2:
+//@     invariant 12 <= l && l <= 12 + 260*len(m.Questions) + 66000*secDone(m, rangeindex_2)
+//@   loop 3:
+//@     invariant 0 <= rangeindex_2 && rangeindex_2 <= 2
+//@     invariant sameSlice(rs, (rangeindex_2 == 0 ? m.Answers : (rangeindex_2 == 1 ? m.Authorities : m.Additionals)), 0, len(rs))
+//@     invariant 12 <= l && l <= 12 + 260*len(m.Questions) + 66000*(secDone(m, rangeindex_2 - 1) + rangeindex_3 + 1)
+
+//@ func newCompressionMap() (mp map[string]uint16)
+//@   trusted
+//@   modifies nothing
+//@   ensures mp != nil && fresh(mp)
+//@ func releaseCompressionMap(m map[string]uint16)
+//@   trusted
+//@   modifies obj(m)
+
+// Ghost counters: incremented at every assignment of off inside the respective section loop,
+// i.e. once per entry handed to its pack method (an error there aborts Pack with err != nil).
+//@ func (m *Msg) Pack(b []byte, compression bool, size int) (n int, err error)
+//@   props C01 C02 C09
+//@   requires m != nil && wfMsg(m)
+//@   ghost nQ int = 0
+//@   ghost nAn int = 0
+//@   ghost nNs int = 0
+//@   ghost nAr int = 0
+//@   onassign off in loop 1: nQ = nQ + 1
+//@   onassign off in loop 2: nAn = nAn + 1
+//@   onassign off in loop 3: nNs = nNs + 1
+//@   onassign off in loop 4: nAr = nAr + 1
+//@   modifies b[0:len(b)], m.Additionals, obj(m.Additionals)
+//@   ensures err == nil ==> 12 <= n && n <= len(b)
+//@   ensures [C09:limit] err == nil && size > 0 && final(size) >= 12 ==> n <= (size < 512 ? 512 : size)
+//@   ensures [C09:counts] err == nil ==> BE16(b, 4) == uint16(nQ) && BE16(b, 6) == uint16(nAn) && BE16(b, 8) == uint16(nNs)
+//@             && BE16(b, 10) == uint16(nAr + (final(edns0Opt) != nil ? 1 : 0))
+//@   ensures [C09:tc] err == nil && uint16(m.OpCode) < 16 && uint16(m.RCode) < 16 ==> ((BE16(b, 2) & 0x0200) != 0) == (m.Truncated || nQ < len(m.Questions) || nAn < len(m.Answers)
+//@             || nNs < len(m.Authorities) || nAr < len(m.Additionals) - (final(edns0Opt) != nil ? 1 : 0))
+//@   ensures [C09:id] err == nil ==> BE16(b, 0) == m.ID
+//@   ensures [C09:opt-kept] err == nil && final(edns0Opt) != nil ==> len(m.Additionals) >= 1 && m.Additionals[len(m.Additionals)-1] == final(edns0Opt) && isOPT(final(edns0Opt))
+//@   ensures [C02:no-reorder] size <= 0 ==> m.Additionals == old(m.Additionals)
+//@   ensures wfMsg(m)
+//@   loop 1:
+//@     modifies b[12:len(b)], obj(compressionMap), msgHdr.Truncated
+//@     invariant 12 <= off && off <= len(b) && (size >= 12 ==> off <= size)
+//@     invariant 0 <= nQ && nQ <= rangeindex + 1 && questions == nQ && (msgHdr.Truncated == (m.Truncated || nQ < rangeindex + 1))
+//@   loop 2:
+//@     modifies b[12:len(b)], obj(compressionMap), msgHdr.Truncated
+//@     invariant 12 <= off && off <= len(b) && (size >= 12 ==> off <= size)
+//@     invariant 0 <= nAn && nAn <= rangeindex_2 + 1 && answers == nAn && (msgHdr.Truncated == (m.Truncated || nQ < len(m.Questions) || nAn < rangeindex_2 + 1))
+//@   loop 3:
+//@     modifies b[12:len(b)], obj(compressionMap), msgHdr.Truncated
+//@     invariant 12 <= off && off <= len(b) && (size >= 12 ==> off <= size)
+//@     invariant 0 <= nNs && nNs <= rangeindex_3 + 1 && authorities == nNs && (msgHdr.Truncated == (m.Truncated || nQ < len(m.Questions) || nAn < len(m.Answers) || nNs < rangeindex_3 + 1))
+//@   loop 4:
+//@     modifies b[12:len(b)], obj(compressionMap), msgHdr.Truncated
+//@     invariant 12 <= off && off <= len(b) && (size >= 12 ==> off <= size)
+//@     invariant 0 <= nAr && nAr <= rangeindex_4 + 1 && additionals == nAr && (msgHdr.Truncated == (m.Truncated || nQ < len(m.Questions) || nAn < len(m.Answers) || nNs < len(m.Authorities) || nAr < rangeindex_4 + 1))
